@@ -183,10 +183,10 @@ def support_obs(hs, qrng):
             e = {}
             if l + 1 < L:
                 e['children'] = tl(hs.hmesh.function_children(l, fs))
-                e['grandchildren'] = tl(hs.hmesh.function_grandchildren(l, fs, L - 1))
+                e['grandchildren'] = tl(hs.hmesh.function_grandchildren(l, fs, min(L - 1, l + 2)))
             if l >= 1:
                 e['parents'] = tl(hs.hmesh.function_parents(l, fs))
-                e['grandparents'] = tl(hs.hmesh.function_grandparents(l, fs, 0))
+                e['grandparents'] = tl(hs.hmesh.function_grandparents(l, fs, max(0, l - 2)))
             res.append(e)
         return res
     guard('kids', kids)
